@@ -220,6 +220,9 @@ def run_driver(ctx, scens, name, timeout):
     res = ctx.go_test("gnet", run="^TestGNet$", timeout=timeout, expect_ok=False,
                       env=dict(VERIF_GN_SCEN=sf, VERIF_GN_TRACE=tf, VERIF_GN_PAR=ctx.pick(6, 8)))
     if res["rc"] != 0:
+        if "panic: test timed out" in res["text"]:
+            # the driver ran into its own deadline: slowness or a hang, not a panic of the route; never a verdict by itself
+            raise Machinery("gnet driver timed out; log %s\n%s" % (res["log"], res["text"][-1500:]))
         if "panic:" in res["text"] or "fatal error:" in res["text"]:
             prog = []
             try:
@@ -272,8 +275,15 @@ def tlc_judge(ctx, blocks, tag, count=True):
 
 def judge(ctx, events, scens, pool):
     blocks = split(events)
-    if len(blocks) != len(scens):
-        raise Machinery("driver recorded %d of %d scenarios" % (len(blocks), len(scens)))
+    skipped = 0
+    try:
+        skipped = sum(1 for e in ctx.read_ndjson("gnet_progress.ndjson") if e.get("at") == "skipped")
+    except Exception:
+        pass
+    if len(blocks) + skipped != len(scens):
+        raise Machinery("driver recorded %d of %d scenarios (%d skipped)" % (len(blocks), len(scens), skipped))
+    if skipped:
+        ctx.note("%d scenarios skipped by the driver after 6 executions stranded data" % skipped)
     # chunks of <= ~40k events, judged in parallel
     chunks, cur, n = [], [], 0
     for b in blocks:
